@@ -45,6 +45,18 @@ def r2_blend(ctx, p, RULE="C10-R2"):
                 r = ExprBuilder(cb).local(0)
                 if r[0] == "call" and r[1] == "model::mean_vari::MeanVari::weighted" and r[2][0][0] == "arg" and r[2][1][0] == "upvar" and r[2][1][1].lstrip("*") == "weight":
                     okp = True
+            if not okp:
+                # loop form: let mut v = Vec::with_capacity(n); for mv in &self.parameters { v.push(mv.weighted(weight)) }
+                import re as _re
+                meb = ExprBuilder(mb)
+                pushes = [(bb, t) for bb, t in mb.calls() if t["callee"]["k"] == "fndef" and cm.callee_name(t["callee"]).endswith("Vec::<T, A>::push")]
+                if len(pushes) == 1 and pe[0] == "call" and (pe[1].endswith("with_capacity") or pe[1].endswith("Vec::<T>::new")):
+                    pbb, pt = pushes[0]
+                    v_ = meb.at(pbb).op(pt["args"][1])
+                    gs_ = paths.guards(mb, pbb, meb)
+                    plain = len(gs_) == 1 and gs_[0][0] == "some" and _re.match(r"^<std::slice::Iter<'a, T> as std::iter::Iterator>::next\((?:[^()]*::(?:into_iter|iter)\()?self\.parameters\)?\)$", show(gs_[0][1]))
+                    if plain and v_[0] == "call" and v_[1] == "model::mean_vari::MeanVari::weighted" and show(v_[2][0]) == "(%s as Some).0" % show(gs_[0][1]) and show(v_[2][1]) == "weight":
+                        okp = True
             if okp:
                 ctx.ok(RULE, "mul: parameters = every MeanVari.weighted(weight)", mb.loc())
             else:
@@ -62,6 +74,16 @@ def r2_blend(ctx, p, RULE="C10-R2"):
                         ats = [a for a, e in mono]
                         if c == 1 and len(ats) == 2 and any(a[0] == "upvar" and a[1].lstrip("*") == "weight" for a in ats) and any(a[0] == "arg" for a in ats):
                             okm = True
+            if not okm:
+                # match form: Some(m) => Some(weight * m), None => None
+                from ..expr import alternatives
+                meb2 = ExprBuilder(mb)
+                alts = alternatives(meb2, me)
+                somes = [a for a in alts if a[0] == "agg" and a[1].endswith("Option::Some")]
+                nones = [a for a in alts if a[0] == "agg" and a[1].endswith("Option::None")]
+                if len(somes) == 1 and len(nones) == 1 and len(alts) == 2:
+                    pol = to_poly(somes[0][2][0], lambda e: ("W",) if e[0] == "arg" and e[2] == "weight" else (("M",) if show(e) == "(self.msd as Some).0" else None))
+                    okm = pol == Poly.atom(("W",)) * Poly.atom(("M",))
             if okm:
                 ctx.ok(RULE, "mul: msd = self.msd.map(|m| weight*m)", mb.loc())
             else:
